@@ -110,6 +110,32 @@ def handshake_submits(prefix, firsts, seconds, opts=None):
     return out
 
 
+def resub_handshake(prefix):
+    """Subscriptions exist, the connection is lost, and the application changes its subscriptions WHILE the reconnect
+    handshake is in progress (dialling, inside a ConnectOption, CONNECT being written, the retransmission being written);
+    the session is lost at the broker or AlwaysResubscribe is set, so the client also restores what it has booked."""
+    out = []
+    i = 0
+    for x in (UNSUB("a"), SUB(("b", 1)), SUB(("a", 2)), UNSUB("a", "b")):
+        for at in ("dial:2", "connopt:3", "write:3", "write:4"):
+            for how in ("lost", "always"):
+                wl = [SUB(("a", 1)), PUB(1), x]
+                out.append(rf.scenario("%s-%d" % (prefix, i), wl, ["conn", "conn", at], [{"p": "PUBLISH", "n": 1, "o": "cutAfter"}],
+                                       connacks=LOST[0] if how == "lost" else [], opts={"alwaysResub": how == "always"}))
+                i += 1
+    # ... with the task goroutine busy when the connection is back: a publish submitted during the handshake whose PUBACK
+    # is slow (25 ms) sits in front of the subscription change; nothing was pending when the connection was lost
+    for x in (UNSUB("a"), SUB(("b", 1)), SUB(("a", 2))):
+        for at in ("dial:2", "connopt:3"):
+            for how in ("lost", "always"):
+                sc_ = rf.scenario("%s-%d" % (prefix, i), [SUB(("a", 1))], ["conn"], [{"p": "PUBLISH", "n": 1, "o": "lateAck"}],
+                                  connacks=LOST[0] if how == "lost" else [], opts={"alwaysResub": how == "always"})
+                sc_["reqs"] += [{"k": "peerclose", "at": "idle"}, {"k": "pub", "q": 1, "at": at}, dict(rf.scenario("x", [x], [at], [])["reqs"][0])]
+                out.append(sc_)
+                i += 1
+    return out
+
+
 def timeout_drops(prefix, base, ks=range(2, 5)):
     """ResponseTimeout configured and a request or its acknowledgement swallowed by a broker that keeps the
     connection open (first transmissions, and retransmissions after a cut)."""
@@ -234,6 +260,7 @@ def scenarios_for(pid, tier, rng, comps):
                                 ks=range(2, 6), connacks=ca)
         sc += sampled("c08r", rng, n, comps, ["w_sub"], connacks=LOST + LOST + KEPT + [[]],
                       optgen=lambda r: {"alwaysResub": r.random() < 0.3, "epilogueLoseSession": r.random() < 0.5})
+        sc += resub_handshake("c08h")
         # a broker that grants less than was requested (MQTT 3.8.4): what the client re-subscribes after a session loss is
         # still what the application asked for
         i = 0
